@@ -476,3 +476,96 @@ fn c14_twin_must_fail() {
     let v = any_varint();
     assert!(v.size() <= 4, "twin: wrong oracle");
 }
+
+/// frame with a payload of exactly L bytes (filler 0x5A, first and last byte symbolic), buffer of T = L + 8 bytes:
+/// write -> read round trip at the varint-length boundaries of the length field and at the parser's payload limit
+fn frame_len_boundary<const L: usize, const T: usize>() {
+    let mut payload = [0x5Au8; L];
+    payload[0] = kani::any();
+    payload[L - 1] = kani::any();
+    let sel: u8 = kani::any();
+    kani::assume(sel < 3);
+    let (f, type_id) = match sel {
+        0 => (Frame::new_data(Cow::Borrowed(&payload[..])), 0u64),
+        1 => (Frame::new_headers(Cow::Borrowed(&payload[..])), 1),
+        _ => (Frame::new_exercise(VarInt::from_u32(0x21), Cow::Borrowed(&payload[..])), 0x21),
+    };
+    let hdr = 1 + ref_varint_len(L as u64);
+    assert!(f.write_size() == hdr + L, "write_size wrong at a length-field boundary");
+    let mut buf = [0u8; T];
+    let mut w = BufferWriter::new(&mut buf);
+    f.write(&mut w).unwrap();
+    let n = w.offset();
+    assert!(n == hdr + L, "bytes written differ from write_size");
+    let mut lenb = [0u8; 8];
+    let ln = ref_varint_put(L as u64, &mut lenb);
+    assert!(buf[0] == type_id as u8 && eq_prefix(&buf[1..], &lenb, ln), "length field is not the shortest varint");
+    let mut s: &[u8] = &buf[..n];
+    match Frame::read(&mut s) {
+        Ok(Some(g)) => {
+            assert!(kind_matches(g.kind(), type_id));
+            assert!(g.payload().len() == L && g.payload()[0] == payload[0] && g.payload()[L - 1] == payload[L - 1], "payload changed in round trip");
+            assert!(s.is_empty(), "decoder did not consume exactly the encoding");
+            kani::cover!(true, "round trip at the boundary");
+        }
+        _ => assert!(false, "decode(encode(frame)) failed at a length boundary (payloads up to 4096 bytes must parse)"),
+    }
+}
+
+// @h props=C14 tier=quick t=1200 sub=frame-len-boundary
+// @fn wtransport-proto/src/frame.rs Frame::{write,write_size,read}
+// @bound DATA / HEADERS / GREASE frame with a payload of exactly 63 bytes (largest 1-byte length field); first and last payload byte symbolic
+// @oracle size == 1 + varint_len(L) + L, length field is the shortest varint, decode∘encode = id, exact consumption
+#[kani::proof]
+#[kani::unwind(10)]
+fn c14_frame_len_63() {
+    frame_len_boundary::<63, 71>()
+}
+
+// @h props=C14 tier=quick t=1200 sub=frame-len-boundary
+// @fn wtransport-proto/src/frame.rs Frame::{write,write_size,read}
+// @bound payload of exactly 64 bytes (smallest 2-byte length field)
+// @oracle as c14_frame_len_63
+#[kani::proof]
+#[kani::unwind(10)]
+fn c14_frame_len_64() {
+    frame_len_boundary::<64, 72>()
+}
+
+// @h props=C14,C11,C12 tier=quick t=1800 mem=24 sub=frame-len-boundary
+// @fn wtransport-proto/src/frame.rs Frame::{write,write_size,read} Frame::MAX_PARSE_PAYLOAD_ALLOWED
+// @bound payload of exactly 4096 bytes: the largest payload the parser accepts
+// @oracle as c14_frame_len_63: a frame the library can write at the documented limit must be readable by it
+#[kani::proof]
+#[kani::unwind(10)]
+fn c14_frame_len_4096() {
+    // DATA only, one symbolic byte: three kinds x two symbolic cells over 4 KiB arrays exceeded 16 GB
+    let mut payload = [0x5Au8; 4096];
+    payload[4095] = kani::any();
+    let f = Frame::new_data(Cow::Borrowed(&payload[..]));
+    assert!(f.write_size() == 1 + 2 + 4096);
+    let mut buf = [0u8; 4100];
+    let mut w = BufferWriter::new(&mut buf);
+    f.write(&mut w).unwrap();
+    let n = w.offset();
+    assert!(n == 4099 && buf[0] == 0x00 && buf[1] == 0x50 && buf[2] == 0x00, "length field of a 4096-byte payload must be the 2-byte varint 0x5000");
+    let mut s: &[u8] = &buf[..n];
+    match Frame::read(&mut s) {
+        Ok(Some(g)) => {
+            assert!(matches!(g.kind(), FrameKind::Data) && g.payload().len() == 4096 && g.payload()[4095] == payload[4095]);
+            assert!(s.is_empty());
+            kani::cover!(true, "4096-byte payload round trip");
+        }
+        _ => assert!(false, "a frame with a payload of exactly 4096 bytes (the documented limit) was refused by the parser"),
+    }
+}
+
+// @h props=C14 tier=thorough t=1800 sub=frame-len-boundary
+// @fn wtransport-proto/src/frame.rs Frame::{write,write_size,read}
+// @bound payload of exactly 1024 bytes
+// @oracle as c14_frame_len_63
+#[kani::proof]
+#[kani::unwind(10)]
+fn c14_frame_len_1024() {
+    frame_len_boundary::<1024, 1032>()
+}
